@@ -47,6 +47,8 @@ m('C03', P, '\t\tp.gb.newSubConn()\n\n\t\t// Let this picker return ErrNoSubConn
 m('C03', B, 'if scState == connectivity.Connecting || scState == connectivity.Idle {', 'if scState == connectivity.Connecting {', 'creation not refused while a connection is idle')
 m('C03', B, 'maxSize > 0 && len(gb.scRefs) >= maxSize', 'maxSize > 0 && len(gb.scRefs) > maxSize', 'locked maxSize re-check off by one')
 m('C03', B, 'for len(gb.scRefs) < int(gb.cfg.GetChannelPool().GetMinSize()) {', 'for len(gb.scRefs) < int(gb.cfg.GetChannelPool().GetMaxSize()) {', 'initial fill uses maxSize')
+m('C06', B, '\t\tif !gb.addSubConn() {\n\t\t\t// Do not spin (holding the lock) when SubConns cannot be created.\n\t\t\treturn\n\t\t}', '\t\tif !gb.addSubConn() && len(gb.scRefs) > 0 {\n\t\t\treturn\n\t\t}', 'minimum-size loop does not stop on a failed creation')
+m('C03', B, 'for len(gb.scRefs) < int(gb.cfg.GetChannelPool().GetMinSize()) {\n\t\tif !gb.addSubConn() {', 'for {\n\t\tif len(gb.scRefs) >= int(gb.cfg.GetChannelPool().GetMinSize()) {\n\t\t\treturn\n\t\t}\n\t\tif !gb.addSubConn() {', 'minimum-size loop written with an inner exit test', 'silent')
 m('C03', B, 'gb.cc.RemoveSubConn(oldSc)', 'gb.cc.RemoveSubConn(sc)', 'swap removes the replacement instead of the old connection')
 m('C03', P, 'p.gb.getConnectionPoolSize() < int(p.gb.cfg.GetChannelPool().GetMaxSize())', 'p.gb.getConnectionPoolSize() <= int(p.gb.cfg.GetChannelPool().GetMaxSize())', 'at maxSize calls are refused instead of placed')
 
@@ -67,6 +69,7 @@ m('C05', B, '\t\tclose(scRef.stateSignal)\n\t\tscRef.stateSignal = make(chan str
 m('C05', B, '\tif scRef := gb.scRefs[sc]; scRef != nil {', '\tif scRef := gb.scRefs[sc]; true {', 'nil slot dereferenced after Shutdown')
 m('C05', B, 'if p, ok := gb.picker.(*gcpPicker); ok {', 'if p := gb.picker.(*gcpPicker); p != nil {', 'unchecked picker assertion (F4a)')
 
+m('C05', P, 'if dl, ok := ctx.Deadline(); rpcErr == nil || status.Code(rpcErr) != codes.DeadlineExceeded ||\n\t\trpcErr.Error() != deErr.Error()', 'if dl, ok := ctx.Deadline(); rpcErr.Error() != deErr.Error()', 'completion error dereferenced without the nil test (nil-capable parameter)')
 # ---------------- C06
 m('C06', B, '\t\t// The mutex is already held here.\n\t\tgb.newSubConnLocked()', '\t\tgb.newSubConn()', 'self-deadlock on an emptied pool (F1a)')
 m('C06', B, '\t\tif !gb.addSubConn() {\n\t\t\t// Do not spin (holding the lock) when SubConns cannot be created.\n\t\t\treturn\n\t\t}', '\t\tgb.addSubConn()', 'min-size loop spins on a failing factory (F1c)')
